@@ -325,11 +325,11 @@ def match_known(known, prop, obligation, desc):
 def playback_test(repo, h, scratch):
     """re-run one failing harness with concrete playback; returns (test_src, raw_output)"""
     cmd = ['cargo', 'kani'] + KANI_FLAGS + ['-Z', 'concrete-playback', '--concrete-playback=print', '--exact',
-                                           '--harness', h.fq, '--harness-timeout', f'{min(h.timeout, 400)}s']
+                                           '--harness', h.fq, '--harness-timeout', f'{min(h.timeout, 240)}s']
     env = dict(os.environ, CARGO_NET_OFFLINE='true', CARGO_TERM_COLOR='never')
     try:
         out = subprocess.run(cmd, cwd=repo, env=env, stdout=subprocess.PIPE, stderr=subprocess.STDOUT, text=True,
-                             timeout=min(h.timeout, 400) + 200).stdout
+                             timeout=min(h.timeout, 240) + 120).stdout
     except subprocess.TimeoutExpired as e:
         return None, 'playback generation timed out'
     tests = re.findall(r'```\n(.*?)```', out, re.S)
@@ -593,9 +593,13 @@ def main(argv):
                 descs = [c['description'] for c in v['failed_checks']]
                 replay = {'property': prop, 'obligation': h.id, 'harness': h.fq, 'unit': h.unit.name, 'text': h.text,
                           'failed_checks': v['failed_checks'], 'tier': a.tier}
-                if h.meta.get('replay') == 'none':
+                n_playback = sum(1 for w in violations if w.get('playback_attempted'))
+                if n_playback >= 2:
+                    tests, tail = [], 'counterexample generation is limited to the first two failing harnesses of a run (CBMC trace generation can take minutes each)'
+                elif h.meta.get('replay') == 'none':
                     tests, tail = [], 'harness replaces callees by recorder/memo stubs: a native replay would not exercise the same code; no playback generated'
                 else:
+                    v['playback_attempted'] = True
                     tests, tail = playback_test(repo, h, scratch)
                 replay['kani_output'] = tail
                 replay['playback_tests'] = tests or []
